@@ -4,6 +4,11 @@
 exception Unsupported
 exception NoModel
 
+(* arithmetic types of the protocol: the ten integer types and the two floating types *)
+type aty = AInt of ity | AF32 | AF64
+(* values: integers as Z, floats as Flocq binary32 / binary64 *)
+type aval = VInt of z | V32 of binary32 | V64 of binary64
+
 let ity_of = function
   | "bool" -> TBool | "char" -> TChar | "i8" -> TI8 | "u8" -> TU8 | "i16" -> TI16 | "u16" -> TU16
   | "i32" -> TI32 | "u32" -> TU32 | "i64" -> TI64 | "u64" -> TU64
@@ -13,6 +18,13 @@ let int_types = [ "bool"; "char"; "i8"; "u8"; "i16"; "u16"; "i32"; "u32"; "i64";
 let width_of = function "8" -> W8 | "16" -> W16 | "32" | "wc" -> W32 | _ -> raise Unsupported
 let pol_of = function "S" -> PSkip | _ -> PThrow
 
+let aty_of = function "f32" -> AF32 | "f64" -> AF64 | s -> AInt (ity_of s)
+
+let pad n s = if String.length s >= n then s else String.make (n - String.length s) '0' ^ s
+let fmt_aval = function
+  | VInt v -> hex_of_z v
+  | V32 x -> if f32_is_nan x then "NAN" else pad 8 (hex_of_z (bits_of_b32 x))
+  | V64 x -> if f64_is_nan x then "NAN" else pad 16 (hex_of_z (bits_of_b64 x))
 let fmt_val (t : ity) (v : z) = hex_of_z v
 let fmt_cres (f : 'a -> string) (r : 'a cres) : string =
   match r with
@@ -36,6 +48,28 @@ let checked t v = if in_range t v then v else failwith "BADCASE range"
 
 (* i-th value of a type counted from its minimum *)
 let nth_value (t : ity) (i : int) : z = Z.add (lo t) (z_of_int i)
+
+let map_cres (f : 'a -> 'b) (r : 'a cres) : 'b cres =
+  match r with COk v -> COk (f v) | COutOfRange -> COutOfRange | CInvalidArgument -> CInvalidArgument
+             | COther -> COther | CUB -> CUB
+
+let aval_of (t : aty) (s : string) : aval =
+  match t with
+  | AInt i -> let v = z_of_hex s in if in_rangeb i v then VInt v else failwith "BADCASE range"
+  | AF32 -> V32 (b32_of_bits (z_of_hex s))
+  | AF64 -> V64 (b64_of_bits (z_of_hex s))
+
+(* Convert::To<T>(S value) for every pair of arithmetic types, as the C++ dispatches it *)
+let conv_any (s : aty) (t : aty) (v : aval) : aval cres =
+  match s, t, v with
+  | AInt a, AInt b, VInt z -> map_cres (fun x -> VInt x) (conv a b z)
+  | AInt a, AF32, VInt z -> map_cres (fun x -> V32 x) (conv_int_f32 a z)
+  | AInt a, AF64, VInt z -> map_cres (fun x -> V64 x) (conv_int_f64 a z)
+  | AF32, AF32, _ | AF64, AF64, _ -> COk v                            (* std::is_same_v: plain copy *)
+  | AF32, AF64, V32 x -> map_cres (fun y -> V64 y) (conv_f32_f64 x)
+  | AF64, AF32, V64 x -> map_cres (fun y -> V32 y) (conv_f64_f32 x)
+  | (AF32 | AF64), AInt _, _ -> CInvalidArgument                     (* throw std::invalid_argument *)
+  | _ -> failwith "BADCASE value kind"
 
 let op_conv spec s t v = if spec then fmt_cres hex_of_z (conv_spec t v) else fmt_cres hex_of_z (conv s t v)
 let op_policy spec s t v old ovf mism =
@@ -71,6 +105,20 @@ let run_line (line : string) : string =
   let spec = t0.(0) = "spec" in
   let t = if spec then Array.sub t0 1 (Array.length t0 - 1) else t0 in
   match t.(0) with
+  | "conv" when (match aty_of t.(1), aty_of t.(2) with AInt _, AInt _ -> false | _ -> true) ->
+    if spec then raise NoModel;
+    let s = aty_of t.(1) and d = aty_of t.(2) in
+    fmt_cres fmt_aval (conv_any s d (aval_of s t.(3)))
+  | "policy" when (match aty_of t.(1), aty_of t.(2) with AInt _, AInt _ -> false | _ -> true) ->
+    if spec then raise NoModel;
+    let s = aty_of t.(1) and d = aty_of t.(2) in
+    let old = aval_of d t.(4) in
+    fmt_load fmt_aval old (convert_by_policy true (conv_any s d (aval_of s t.(3))) old (pol_of t.(6)) (pol_of t.(5)))
+  | "policyx" when (match aty_of t.(1) with AInt _ -> false | _ -> true) ->
+    if spec then raise NoModel;
+    let d = aty_of t.(1) in
+    let old = aval_of d t.(2) in
+    fmt_load fmt_aval old (convert_by_policy false (COk old) old (pol_of t.(4)) (pol_of t.(3)))
   | "conv" ->
     let s = ity_of t.(1) and d = ity_of t.(2) in
     op_conv spec s d (checked s (z_of_hex t.(3)))
